@@ -68,6 +68,18 @@ func secretFamily(rng *rand.Rand, n int) []secretVal {
 		{bi("0fffffffffffffffffffffffffffffffffffffffffffffffffffffffffffffff"), "f_heavy"},
 		{add(half, 0), "pos_half"}, {add(half, 1), "neg_half"}, {big.NewInt(2), "one"},
 	}
+	// secrets that share their top 1, 2, 3 limbs with a constant a comparison is made against ((n-1)/2 and n), the rest random (round 9):
+	// a limb-wise shortcut in front of a borrow chain takes its slow path only there
+	for _, cst := range []*big.Int{half, bigN} {
+		for keep := uint(1); keep <= 3; keep++ {
+			low := 64 * (4 - keep)
+			v := new(big.Int).Lsh(new(big.Int).Rsh(cst, low), low)
+			v.Add(v, randBig(rng, pow2(low-1)))
+			if v.Sign() > 0 && v.Cmp(bigN) < 0 {
+				out = append(out, secretVal{v, "random"})
+			}
+		}
+	}
 	for _, s := range steeredScalars(rng, 0) { // edge values, extreme split halves, rounding-bit flips, limb carries in the rounded quotients
 		if s.Sign() != 0 {
 			out = append(out, secretVal{s, "random"})
@@ -170,6 +182,11 @@ func driveCT(c *ctx) {
 			emit("mult", "ScalarMult", pub, sv.cls, false, func() { sink = secp256k1.NewIdentityPoint().ScalarMult(s, P) })
 			emit("msm", "MultiScalarMult2", pub, sv.cls, false, func() {
 				sink = secp256k1.NewIdentityPoint().MultiScalarMult([]*secp256k1.Scalar{s, fixedScalar}, []*secp256k1.Point{P, pubPts[0]})
+			})
+			emit("msm", "MultiScalarMultAllSecret", pub, sv.cls, false, func() { // every scalar of the batch is (derived from) the secret: all short / all wide together
+				s2 := secp256k1.NewScalar().Add(s, s)
+				s3 := secp256k1.NewScalar().Add(s2, secp256k1.NewScalarFromUint64(1))
+				sink = secp256k1.NewIdentityPoint().MultiScalarMult([]*secp256k1.Scalar{s, s2, s3}, []*secp256k1.Point{P, pubPts[0], pubPts[1]})
 			})
 			emit("msm", "MultiScalarMult1", pub, sv.cls, false, func() {
 				sink = secp256k1.NewIdentityPoint().MultiScalarMult([]*secp256k1.Scalar{s}, []*secp256k1.Point{P})
